@@ -49,6 +49,8 @@ def ops():
     typed("setstr", "str", "sl", 0, "e0", "e0")
     typed("setstr", "str", "sl", 2, "e2", "e2")
     typed("setstr", "str", "i", 0, "x", "x")                   # wrong type
+    typed("setstr", "str", "s", 0, None, None)                 # NULL is a value a string option can hold
+    typed("setstr", "str", "sl", 1, None, None)
     typed("setfloat", "float", "fl", 1, "0.25", 0.25)
     typed("setfloat", "float", "f", 0, "-1.5", -1.5)
     typed("setbool", "bool", "b", 0, "1", 1)
@@ -88,6 +90,9 @@ def ops():
         O.append(("setmulti %s %r" % (path, texts), ["setmulti", 1, H(path), len(texts)] + [H(t) for t in texts],
                   lambda m, path=path, texts=texts: m.setmulti(path, texts)))
     O.append(("addlist si (scalar)", ["addlist", 1, H("si"), "i", 1, "1"], lambda m: m.setlist("si", "int", [1], True)))
+    # a text parsed in the middle of a history: sections removed before are created anew, with their declared defaults
+    for text in ("single { x = 8 }\n", "single { }\ntm a { }\nmulti { }\n"):
+        O.append(("parse %r" % text, ["parse_buf", 1, H(text)], lambda m, text=text: 0 if m.parse(text)["accept"] else 1))
     for path in ("tm=a", "tm=new", "tm", "multi=1", "multi=7", "single", "nosuch", "tu=t1", "multi=1|in=", "multi=1|in=1", "multi=0|in"):
         O.append(("rmsec %s" % path, ["rmsec", 1, H(path)], lambda m, path=path: m.rmsec(path)))
     return O
@@ -102,7 +107,7 @@ class C09:
     variants = ("fast", "asan")
     rule = ("all sequences of length <= 3 (quick: from the initial state, <= 2 from three parsed states; thorough: <= 3, <= 4 from the initial state) over an alphabet of %d concrete calls (typed setters at "
             "indices 0/1/size/beyond on scalars, lists, CFG_SIMPLE_* options, nested and missing options and wrong types; setlist/addlist with 0-3 "
-            "values; setmulti; addtsec new/existing; rmnsec/rmtsec/rmsec present/missing) from the initial state and three "
+            "values; setmulti; addtsec new/existing; rmnsec/rmtsec/rmsec present/missing; two texts parsed mid-history) from the initial state and three "
             "parsed states, plus Hypothesis sequences up to length 30. Oracle: abstract store model; after every call the "
             "return value and the full tree (sizes, values, titles in order, MODIFIED of value options). Non-trivial = two "
             "calls hit the same option or a remove follows an add; distinct = distinct (start, sequence)" % len(OPS))
